@@ -12,7 +12,7 @@ Lemma og_OSynth : forall n L s a0 a1 a2 a3 a4 a5 s1 sends e,
 Proof.
   intros n L s a0 a1 a2 a3 a4 a5 s1 sends e I Hw H.
   cbn [wf_op] in Hw; try discriminate Hw; split_ands.
-  unfold obj_step, ok, fail in H.
+  unfold obj_step, obj_step_core, ok, fail in H.
   brk_hyp H; inversion H; subst; clear H.
   all: cbn [flat_map send_msgs app].
   all: cbn [op_ids].
@@ -37,7 +37,7 @@ Lemma og_OGroup : forall n L s a0 a1 a2 a3 s1 sends e,
 Proof.
   intros n L s a0 a1 a2 a3 s1 sends e I Hw H.
   cbn [wf_op] in Hw; try discriminate Hw; split_ands.
-  unfold obj_step, ok, fail in H.
+  unfold obj_step, obj_step_core, ok, fail in H.
   brk_hyp H; inversion H; subst; clear H.
   all: cbn [flat_map send_msgs app].
   all: cbn [op_ids].
@@ -59,7 +59,7 @@ Lemma og_OBasicNew : forall n L s a0 s1 sends e,
 Proof.
   intros n L s a0 s1 sends e I Hw H.
   cbn [wf_op] in Hw; try discriminate Hw; split_ands.
-  unfold obj_step, ok, fail in H.
+  unfold obj_step, obj_step_core, ok, fail in H.
   brk_hyp H; inversion H; subst; clear H.
   all: cbn [flat_map send_msgs app].
   all: cbn [op_ids].
@@ -81,7 +81,7 @@ Lemma og_ONodeSet : forall n L s a0 a1 s1 sends e,
 Proof.
   intros n L s a0 a1 s1 sends e I Hw H.
   cbn [wf_op] in Hw; try discriminate Hw; split_ands.
-  unfold obj_step, ok, fail in H.
+  unfold obj_step, obj_step_core, ok, fail in H.
   brk_hyp H; inversion H; subst; clear H.
   all: cbn [flat_map send_msgs app].
   all: cbn [op_ids].
@@ -111,7 +111,7 @@ Lemma og_ONodeSetn : forall n L s a0 a1 s1 sends e,
 Proof.
   intros n L s a0 a1 s1 sends e I Hw H.
   cbn [wf_op] in Hw; try discriminate Hw; split_ands.
-  unfold obj_step, ok, fail in H.
+  unfold obj_step, obj_step_core, ok, fail in H.
   brk_hyp H; inversion H; subst; clear H.
   all: cbn [flat_map send_msgs app].
   all: cbn [op_ids].
@@ -142,7 +142,7 @@ Lemma og_ONodeMap : forall n L s a0 a1 a2 s1 sends e,
 Proof.
   intros n L s a0 a1 a2 s1 sends e I Hw H.
   cbn [wf_op] in Hw; try discriminate Hw; split_ands.
-  unfold obj_step, ok, fail in H.
+  unfold obj_step, obj_step_core, ok, fail in H.
   brk_hyp H; inversion H; subst; clear H.
   all: cbn [flat_map send_msgs app].
   all: cbn [op_ids].
@@ -173,7 +173,7 @@ Lemma og_ONodeMapn : forall n L s a0 a1 a2 s1 sends e,
 Proof.
   intros n L s a0 a1 a2 s1 sends e I Hw H.
   cbn [wf_op] in Hw; try discriminate Hw; split_ands.
-  unfold obj_step, ok, fail in H.
+  unfold obj_step, obj_step_core, ok, fail in H.
   brk_hyp H; inversion H; subst; clear H.
   all: cbn [flat_map send_msgs app].
   all: cbn [op_ids].
@@ -204,7 +204,7 @@ Lemma og_ONodeFill : forall n L s a0 a1 s1 sends e,
 Proof.
   intros n L s a0 a1 s1 sends e I Hw H.
   cbn [wf_op] in Hw; try discriminate Hw; split_ands.
-  unfold obj_step, ok, fail in H.
+  unfold obj_step, obj_step_core, ok, fail in H.
   brk_hyp H; inversion H; subst; clear H.
   all: cbn [flat_map send_msgs app].
   all: cbn [op_ids].
@@ -234,7 +234,7 @@ Lemma og_ONodeRelease : forall n L s a0 a1 s1 sends e,
 Proof.
   intros n L s a0 a1 s1 sends e I Hw H.
   cbn [wf_op] in Hw; try discriminate Hw; split_ands.
-  unfold obj_step, ok, fail in H.
+  unfold obj_step, obj_step_core, ok, fail in H.
   brk_hyp H; inversion H; subst; clear H.
   all: cbn [flat_map send_msgs app].
   all: cbn [op_ids].
@@ -256,7 +256,7 @@ Lemma og_ONodeRun : forall n L s a0 a1 s1 sends e,
 Proof.
   intros n L s a0 a1 s1 sends e I Hw H.
   cbn [wf_op] in Hw; try discriminate Hw; split_ands.
-  unfold obj_step, ok, fail in H.
+  unfold obj_step, obj_step_core, ok, fail in H.
   brk_hyp H; inversion H; subst; clear H.
   all: cbn [flat_map send_msgs app].
   all: cbn [op_ids].
@@ -278,7 +278,7 @@ Lemma og_ONodeFree : forall n L s a0 a1 s1 sends e,
 Proof.
   intros n L s a0 a1 s1 sends e I Hw H.
   cbn [wf_op] in Hw; try discriminate Hw; split_ands.
-  unfold obj_step, ok, fail in H.
+  unfold obj_step, obj_step_core, ok, fail in H.
   brk_hyp H; inversion H; subst; clear H.
   all: cbn [flat_map send_msgs app].
   all: cbn [op_ids].
@@ -300,7 +300,7 @@ Lemma og_ONodeTrace : forall n L s a0 s1 sends e,
 Proof.
   intros n L s a0 s1 sends e I Hw H.
   cbn [wf_op] in Hw; try discriminate Hw; split_ands.
-  unfold obj_step, ok, fail in H.
+  unfold obj_step, obj_step_core, ok, fail in H.
   brk_hyp H; inversion H; subst; clear H.
   all: cbn [flat_map send_msgs app].
   all: cbn [op_ids].
@@ -322,7 +322,7 @@ Lemma og_ONodeQuery : forall n L s a0 s1 sends e,
 Proof.
   intros n L s a0 s1 sends e I Hw H.
   cbn [wf_op] in Hw; try discriminate Hw; split_ands.
-  unfold obj_step, ok, fail in H.
+  unfold obj_step, obj_step_core, ok, fail in H.
   brk_hyp H; inversion H; subst; clear H.
   all: cbn [flat_map send_msgs app].
   all: cbn [op_ids].
@@ -344,7 +344,7 @@ Lemma og_ONodeMoveBefore : forall n L s a0 a1 s1 sends e,
 Proof.
   intros n L s a0 a1 s1 sends e I Hw H.
   cbn [wf_op] in Hw; try discriminate Hw; split_ands.
-  unfold obj_step, ok, fail in H.
+  unfold obj_step, obj_step_core, ok, fail in H.
   brk_hyp H; inversion H; subst; clear H.
   all: cbn [flat_map send_msgs app].
   all: cbn [op_ids].
@@ -366,7 +366,7 @@ Lemma og_ONodeMoveAfter : forall n L s a0 a1 s1 sends e,
 Proof.
   intros n L s a0 a1 s1 sends e I Hw H.
   cbn [wf_op] in Hw; try discriminate Hw; split_ands.
-  unfold obj_step, ok, fail in H.
+  unfold obj_step, obj_step_core, ok, fail in H.
   brk_hyp H; inversion H; subst; clear H.
   all: cbn [flat_map send_msgs app].
   all: cbn [op_ids].
@@ -388,7 +388,7 @@ Lemma og_ONodeMoveToHead : forall n L s a0 a1 s1 sends e,
 Proof.
   intros n L s a0 a1 s1 sends e I Hw H.
   cbn [wf_op] in Hw; try discriminate Hw; split_ands.
-  unfold obj_step, ok, fail in H.
+  unfold obj_step, obj_step_core, ok, fail in H.
   brk_hyp H; inversion H; subst; clear H.
   all: cbn [flat_map send_msgs app].
   all: cbn [op_ids].
@@ -410,7 +410,7 @@ Lemma og_ONodeMoveToTail : forall n L s a0 a1 s1 sends e,
 Proof.
   intros n L s a0 a1 s1 sends e I Hw H.
   cbn [wf_op] in Hw; try discriminate Hw; split_ands.
-  unfold obj_step, ok, fail in H.
+  unfold obj_step, obj_step_core, ok, fail in H.
   brk_hyp H; inversion H; subst; clear H.
   all: cbn [flat_map send_msgs app].
   all: cbn [op_ids].
@@ -432,7 +432,7 @@ Lemma og_OGroupFreeAll : forall n L s a0 s1 sends e,
 Proof.
   intros n L s a0 s1 sends e I Hw H.
   cbn [wf_op] in Hw; try discriminate Hw; split_ands.
-  unfold obj_step, ok, fail in H.
+  unfold obj_step, obj_step_core, ok, fail in H.
   brk_hyp H; inversion H; subst; clear H.
   all: cbn [flat_map send_msgs app].
   all: cbn [op_ids].
@@ -454,7 +454,7 @@ Lemma og_OGroupDeepFree : forall n L s a0 s1 sends e,
 Proof.
   intros n L s a0 s1 sends e I Hw H.
   cbn [wf_op] in Hw; try discriminate Hw; split_ands.
-  unfold obj_step, ok, fail in H.
+  unfold obj_step, obj_step_core, ok, fail in H.
   brk_hyp H; inversion H; subst; clear H.
   all: cbn [flat_map send_msgs app].
   all: cbn [op_ids].
@@ -476,7 +476,7 @@ Lemma og_OGroupDumpTree : forall n L s a0 a1 s1 sends e,
 Proof.
   intros n L s a0 a1 s1 sends e I Hw H.
   cbn [wf_op] in Hw; try discriminate Hw; split_ands.
-  unfold obj_step, ok, fail in H.
+  unfold obj_step, obj_step_core, ok, fail in H.
   brk_hyp H; inversion H; subst; clear H.
   all: cbn [flat_map send_msgs app].
   all: cbn [op_ids].
@@ -498,7 +498,7 @@ Lemma og_OReorder : forall n L s a0 a1 a2 s1 sends e,
 Proof.
   intros n L s a0 a1 a2 s1 sends e I Hw H.
   cbn [wf_op] in Hw; try discriminate Hw; split_ands.
-  unfold obj_step, ok, fail in H.
+  unfold obj_step, obj_step_core, ok, fail in H.
   brk_hyp H; inversion H; subst; clear H.
   all: cbn [flat_map send_msgs app].
   all: cbn [op_ids].
@@ -530,7 +530,7 @@ Lemma og_OFreeDefaultGroup : forall n L s a0 s1 sends e,
 Proof.
   intros n L s a0 s1 sends e I Hw H.
   cbn [wf_op] in Hw; try discriminate Hw; split_ands.
-  unfold obj_step, ok, fail in H.
+  unfold obj_step, obj_step_core, ok, fail in H.
   brk_hyp H; inversion H; subst; clear H.
   all: cbn [flat_map send_msgs app].
   all: cbn [op_ids].
@@ -557,7 +557,7 @@ Lemma og_OSendDefaultGroups : forall n L s  s1 sends e,
 Proof.
   intros n L s  s1 sends e I Hw H.
   cbn [wf_op] in Hw; try discriminate Hw; split_ands.
-  unfold obj_step, ok, fail in H.
+  unfold obj_step, obj_step_core, ok, fail in H.
   brk_hyp H; inversion H; subst; clear H.
   all: cbn [flat_map send_msgs app].
   all: cbn [op_ids].
@@ -584,7 +584,7 @@ Lemma og_ODumpOsc : forall n L s a0 s1 sends e,
 Proof.
   intros n L s a0 s1 sends e I Hw H.
   cbn [wf_op] in Hw; try discriminate Hw; split_ands.
-  unfold obj_step, ok, fail in H.
+  unfold obj_step, obj_step_core, ok, fail in H.
   brk_hyp H; inversion H; subst; clear H.
   all: cbn [flat_map send_msgs app].
   all: cbn [op_ids].
@@ -606,7 +606,7 @@ Lemma og_ODefSend : forall n L s a0 a1 s1 sends e,
 Proof.
   intros n L s a0 a1 s1 sends e I Hw H.
   cbn [wf_op] in Hw; try discriminate Hw; split_ands.
-  unfold obj_step, ok, fail in H.
+  unfold obj_step, obj_step_core, ok, fail in H.
   brk_hyp H; inversion H; subst; clear H.
   all: cbn [flat_map send_msgs app].
   all: cbn [op_ids].
@@ -629,7 +629,7 @@ Lemma og_ODefLoad : forall n L s a0 a1 a2 s1 sends e,
 Proof.
   intros n L s a0 a1 a2 s1 sends e I Hw H.
   cbn [wf_op] in Hw; try discriminate Hw; split_ands.
-  unfold obj_step, ok, fail in H.
+  unfold obj_step, obj_step_core, ok, fail in H.
   brk_hyp H; inversion H; subst; clear H.
   all: cbn [flat_map send_msgs app].
   all: cbn [op_ids].
